@@ -4,7 +4,11 @@ open Lean CE
 
 def handlers : List (String × (Json → R Json)) := [
   ("tpr_fpr", Stats.hTprFpr),
-  ("auc", Stats.hAuc)
+  ("auc", Stats.hAuc),
+  ("discover", Disc.hDiscover),
+  ("ocse", Disc.hOcse),
+  ("shuffle_decide", Disc.hShuffleDecide),
+  ("lag_index", Disc.hLagCols)
 ]
 
 def handle (j : Json) : Json :=
